@@ -9,3 +9,4 @@ import SmtpV.Props.C12
 #print axioms SmtpV.Props.C12.C12_auth_honoured
 #print axioms SmtpV.Props.C12.C12_keyword_iff_enabled
 #print axioms SmtpV.Props.C12.C12_requiretls_honoured_iff_advertised
+#print axioms SmtpV.Props.C12.C12_caps_depend_on_config_and_tls_only
